@@ -30,6 +30,7 @@ type c04Rule struct {
 	exc          bool
 	pattern      string
 	party        int // 0 absent, 1 third-party, 2 ~third-party, 3 first-party, 4 ~first-party
+	party2       int // a second party modifier (both must hold)
 	types        []nv
 	domains      []nv
 	denyallow    []string
@@ -146,6 +147,9 @@ func (r c04Rule) text() string {
 		o = append(o, "first-party")
 	case 4:
 		o = append(o, "~first-party")
+	}
+	if r.party2 != 0 {
+		o = append(o, []string{"", "third-party", "~third-party", "first-party", "~first-party"}[r.party2])
 	}
 	for _, t := range r.types {
 		if t.neg {
@@ -319,14 +323,16 @@ func c04Reference(r c04Rule, q *rules.Request) bool {
 	if !refPatternMatch(r.pattern, r.matchCase, target) {
 		return false
 	}
-	switch r.party {
-	case 1, 4:
-		if !q.ThirdParty {
-			return false
-		}
-	case 2, 3:
-		if q.ThirdParty {
-			return false
+	for _, party := range []int{r.party, r.party2} {
+		switch party {
+		case 1, 4:
+			if !q.ThirdParty {
+				return false
+			}
+		case 2, 3:
+			if q.ThirdParty {
+				return false
+			}
 		}
 	}
 	// content types
@@ -445,14 +451,19 @@ func c04Requests() (qs []c04Req) {
 			}
 		}
 	}
-	names := []string{"", "Mom", "Frank's laptop", "a,b", "x|y", "Dad"}
+	names := []string{"", "Mom", "Frank's laptop", "a,b", "x|y", "Dad", " tv", "tv", "Fr\u00e9d\u00e9ric"}
 	ips := []string{"", "127.0.0.1", "192.168.0.7", "fe80::1", "10.0.0.1", "fd00::17", "::ffff:192.168.0.7", "::ffff:10.0.0.1"}
 	tagsets := [][]string{nil, {"pc"}, {"phone"}, {"pc", "phone"}, {"printer", "tv"}}
 	for _, h := range []string{"example.org", "ads.sub.example.org", "1.2.3.4"} {
 		for _, dt := range []uint16{1, 28, 5, 65, 257} {
-			for _, n := range names {
-				for _, ip := range ips {
-					for _, ts := range tagsets {
+			for ni, n := range names {
+				for ii, ip := range ips {
+					for ti, ts := range tagsets {
+						// every tag set with the first two names and addresses, one
+						// (rotating) tag set with the others
+						if (ni > 1 || ii > 1) && ti != 0 && ti != 1+(ni+ii)%(len(tagsets)-1) {
+							continue
+						}
 						q := rules.NewRequestForHostname(h)
 						q.DNSType = dt
 						q.ClientName = n
@@ -526,7 +537,7 @@ func c04Slots() []c04Slot {
 	return []c04Slot{
 		{"domain", []nv{{"example.org", false}, {"sub.example.org", true}, {"example.com", false}, {"google.*", false}, {"www.google.*", true}, {"co.uk", false}, {"example.*", false}, {"example.local", false}, {"shop.example.com", false}, {"example.com", true}},
 			func(r *c04Rule, vs []nv) { r.domains = vs }},
-		{"client", []nv{{"127.0.0.1", false}, {"192.168.0.0/24", true}, {"fe80::/10", false}, {"Frank's laptop", false}, {"a,b", false}, {"Mom", false}, {"Dad", true}, {"x|y", true}, {"192.168.0.0/16", false}, {"10.0.0.1", false}, {"Mom", true}, {"fd00::/8", false}, {"::ffff:192.168.0.7", false}, {"::ffff:10.0.0.0/104", true}},
+		{"client", []nv{{"127.0.0.1", false}, {"192.168.0.0/24", true}, {"fe80::/10", false}, {"Frank's laptop", false}, {"a,b", false}, {"Mom", false}, {"Dad", true}, {"x|y", true}, {"192.168.0.0/16", false}, {"10.0.0.1", false}, {"Mom", true}, {"fd00::/8", false}, {"::ffff:192.168.0.7", false}, {"::ffff:10.0.0.0/104", true}, {" tv", false}, {"tv", true}, {"Fr\u00e9d\u00e9ric", false}},
 			func(r *c04Rule, vs []nv) { r.clients = vs }},
 		{"ctag", []nv{{"pc", false}, {"phone", true}, {"printer", false}, {"tv", true}, {"pc", true}, {"phone", false}},
 			func(r *c04Rule, vs []nv) { r.ctags = vs }},
@@ -574,7 +585,13 @@ func c04Run(c *Ctx, qs []c04Req, only string) {
 	}
 	for _, slot := range c04Slots() {
 		for l := 1; l <= maxVals; l++ {
-			enum.Sequences(len(slot.alpha), l, func(s []int) bool {
+			// the longest lists over the first ten values of the slot's alphabet
+			// (the later ones are variations already covered pairwise)
+			na := len(slot.alpha)
+			if l == maxVals && na > 10 {
+				na = 10
+			}
+			enum.Sequences(na, l, func(s []int) bool {
 				vs := make([]nv, l)
 				for i, k := range s {
 					vs[i] = slot.alpha[k]
@@ -638,6 +655,24 @@ func c04Run(c *Ctx, qs []c04Req, only string) {
 				jobs = append(jobs, job{c04Rule{pattern: "ads", types: []nv{{a, false}, {b, false}}}, "content-types"}, job{c04Rule{pattern: "ads", types: []nv{{a, false}, {b, true}}}, "content-types"},
 					job{c04Rule{pattern: "ads", types: []nv{{a, true}, {b, true}}}, "content-types"})
 			}
+		}
+	}
+	// two party modifiers on one rule (in every spelling and order), and every
+	// document-only modifier on blocking and exception rules, against a request
+	// of every type from a first- and a third-party referrer
+	for _, src := range []string{"http://example.org/", "http://sub.example.org/p"} {
+		for _, t := range []rules.RequestType{rules.TypeDocument, rules.TypeSubdocument, rules.TypeScript, rules.TypeImage, rules.TypeOther} {
+			typeQs = append(typeQs, c04Req{rules.NewRequest("http://example.org/ads", src, t), fmt.Sprintf("url=http://example.org/ads src=%s type=%d", src, t)})
+		}
+	}
+	for p1 := 1; p1 <= 4; p1++ {
+		for p2 := 1; p2 <= 4; p2++ {
+			jobs = append(jobs, job{c04Rule{pattern: "||example.org^", party: p1, party2: p2}, "content-types"}, job{c04Rule{pattern: "ads", exc: true, party: p1, party2: p2}, "content-types"})
+		}
+	}
+	for _, m := range []string{"elemhide", "generichide", "genericblock", "jsinject", "urlblock", "content", "extension", "popup", "document"} {
+		for _, exc := range []bool{false, true} {
+			jobs = append(jobs, job{c04Rule{pattern: "||example.org^", exc: exc, docOnly: m}, "content-types"}, job{c04Rule{pattern: "ads", exc: exc, docOnly: m, party: 1}, "content-types"})
 		}
 	}
 	perSlot := map[string]int64{}
